@@ -86,9 +86,12 @@ def build_corpus(tier, rng):
             items.append(("attr-forms", tw))
     G.resolve_names(ID, [it for _, it in items])
     items = [(f_, i_) for f_, i_ in items if not getattr(i_, "_lost_variants", False)]     # (only when the generator probe is unavailable)
+    nth_def = [0]
     for fam, it in items:
         fieldless = all(v.kind == "unit" for v in it.variants)
-        derives = ["EnumCount", "VariantNames", "EnumIter"] + (["VariantArray"] if fieldless else [])
+        # every fifth definition uses the DEPRECATED spelling of the derive (same trait, same list)
+        nth_def[0] += 1
+        derives = ["EnumCount", "EnumVariantNames" if nth_def[0] % 5 == 2 else "VariantNames", "EnumIter"] + (["VariantArray"] if fieldless else [])
         k = c.add_def(it, family=fam, derives=derives)
         c.add_q(k, "count", [], note="count")
         c.add_q(k, "adapt", ["count"], note="itercount")
